@@ -97,8 +97,14 @@ def enum_shape(name, trait, attr, default_placeholder, variants, shared, shared_
     decl = "#[derive(derive_more::%s)]\n%spub enum E {\n%s\n}" % (trait, top, "\n".join(v.decl(attr) for v in variants))
     if generic:
         # the same enum over a type parameter (instantiated with Probe by inference): the impl must carry the bounds the rule needs
+        # one type parameter PER VARIANT: with a single shared parameter another variant's own placeholder supplies the bound a variant lacks
         assert "Probe" in decl
-        decl = decl.replace("pub enum E {", "pub enum E<T> {").replace("Probe", "T")
+        lines, params = decl.split("\n"), []
+        for i, l in enumerate(lines):
+            if "Probe" in l:
+                params.append("T%d" % len(params))
+                lines[i] = l.replace("Probe", params[-1])
+        decl = "\n".join(lines).replace("pub enum E {", "pub enum E<%s> {" % ", ".join(params))
     ctors = ["%d => %s" % (i, v.ctor()) for i, v in enumerate(variants)]
     ctors[-1] = "_ => " + variants[-1].ctor()
     arms = [oracle_arm(v, shared, shared_args, default_placeholder, wraps) for v in variants]
